@@ -2743,6 +2743,118 @@ def join_term_lists(func):
     return func
 
 
+_PURE_METHODS = {"index", "get", "keys", "values", "items", "copy", "strip", "lstrip", "rstrip", "lower", "upper", "format", "join", "split", "count",
+                 "startswith", "endswith", "replace"}
+_PURE_BUILTINS = {"len", "str", "int", "float", "bool", "enumerate", "zip", "range", "list", "tuple", "sorted", "reversed", "min", "max", "sum", "abs", "repr", "tqdm"}
+
+
+def _calls_pure(e, is_record) -> bool:
+    """every call inside `e` builds a value without touching anything else: a record constructor (is_record(name)), a builtin that only
+    reads its arguments, a read-only method of str / list / dict"""
+    for n in ast.walk(e):
+        if isinstance(n, (ast.Await, ast.Yield, ast.YieldFrom, ast.NamedExpr, ast.Lambda)):
+            return False
+        if isinstance(n, ast.Call):
+            f = n.func
+            if isinstance(f, ast.Name) and (f.id in _PURE_BUILTINS or is_record(f.id)):
+                continue
+            if isinstance(f, ast.Attribute) and f.attr in _PURE_METHODS:
+                continue
+            return False
+    return True
+
+
+def fuse_collected_loops(func, is_record=lambda name: False):
+    """Items collected first and consumed by ONE loop afterwards --
+
+        L = [E1 for T1 in S1]            (also `+ [..]`, `+ list(E for ..)`, and `L.extend(E2 for T2 in S2)` statements)
+        for T in L: BODY
+
+    -- is `for T1 in S1: T = E1; BODY` followed by `for T2 in S2: T = E2; BODY`: the same items reach BODY in the same order.  The
+    evaluation of the items moves from before the loop into it, so this is done only when that cannot be observed: the element /
+    filter expressions contain nothing but pure calls (_calls_pure), BODY (and every statement between the collection and the loop)
+    stores or mutates no name the collection reads, and BODY has no `break` / `else`.  L must be read by that loop only.  One
+    generator per comprehension; its filters become `if`s around the body.  (In place; returns func.)"""
+    loads = {}
+    for n in ast.walk(func):
+        if isinstance(n, ast.Name) and isinstance(n.ctx, ast.Load):
+            loads[n.id] = loads.get(n.id, 0) + 1
+
+    def comps_of(e):
+        """[comprehension, ..] when e is a concatenation of list comprehensions / list(generator) / generator expressions"""
+        if isinstance(e, ast.BinOp) and isinstance(e.op, ast.Add):
+            l, r = comps_of(e.left), comps_of(e.right)
+            return l + r if l is not None and r is not None else None
+        if isinstance(e, ast.Call) and isinstance(e.func, ast.Name) and e.func.id in ("list", "tuple") and len(e.args) == 1 and not e.keywords:
+            return comps_of(e.args[0]) if isinstance(e.args[0], (ast.GeneratorExp, ast.ListComp)) else None
+        if isinstance(e, (ast.ListComp, ast.GeneratorExp)) and len(e.generators) == 1 and not e.generators[0].is_async and _calls_pure(e, is_record):
+            return [e]
+        if isinstance(e, ast.List) and not e.elts:
+            return []
+        return None
+
+    def block(stmts):
+        i = 0
+        while i < len(stmts):
+            st = stmts[i]
+            for fld in ("body", "orelse", "finalbody"):
+                b = getattr(st, fld, None)
+                if isinstance(b, list) and b and isinstance(b[0], ast.stmt) and not isinstance(st, (ast.FunctionDef, ast.ClassDef, ast.AsyncFunctionDef)):
+                    block(b)
+            parts = comps_of(st.value) if isinstance(st, ast.Assign) and len(st.targets) == 1 and isinstance(st.targets[0], ast.Name) else None
+            if parts is not None:
+                L = st.targets[0].id
+                drop = [i]
+                j = i + 1
+                done = None
+                while j < len(stmts):
+                    nx = stmts[j]
+                    read = set().union(set(), *[_loaded(c) for c in parts])
+                    if isinstance(nx, ast.Expr) and isinstance(nx.value, ast.Call) and isinstance(nx.value.func, ast.Attribute) and nx.value.func.attr == "extend" \
+                            and isinstance(nx.value.func.value, ast.Name) and nx.value.func.value.id == L and len(nx.value.args) == 1 and not nx.value.keywords:
+                        more = comps_of(nx.value.args[0])
+                        if more is None or L in _loaded(nx.value.args[0]):
+                            break
+                        parts = parts + more
+                        drop.append(j)
+                    elif isinstance(nx, ast.For) and isinstance(nx.iter, ast.Name) and nx.iter.id == L:
+                        n_ext = len(drop) - 1
+                        if loads.get(L, 0) == 1 + n_ext and parts and not nx.orelse and not _own_break(nx.body) \
+                                and not (read & (_stored(nx.body) | {n.id for n in ast.walk(nx.target) if isinstance(n, ast.Name)})) \
+                                and not any({n.id for n in ast.walk(c.generators[0].target) if isinstance(n, ast.Name)} & (_loaded(nx) | _stored([nx])) for c in parts):
+                            done = j
+                        break
+                    elif L in _loaded(nx) or L in _stored([nx]) or (read & _stored([nx])):
+                        break
+                    j += 1
+                if done is not None:
+                    loop = stmts[done]
+                    new = []
+                    for c in parts:
+                        g = c.generators[0]
+                        bind = ast.Assign(targets=[copy.deepcopy(loop.target)], value=copy.deepcopy(c.elt))
+                        body = [bind] + copy.deepcopy(loop.body)
+                        for cond in reversed(g.ifs):
+                            body = [ast.If(test=copy.deepcopy(cond), body=body, orelse=[])]
+                        f = ast.For(target=copy.deepcopy(g.target), iter=copy.deepcopy(g.iter), body=body, orelse=[], type_comment=None)
+                        for n in ast.walk(f.target):
+                            if isinstance(n, (ast.Name, ast.Tuple, ast.List, ast.Starred)):
+                                n.ctx = ast.Store()
+                        ast.copy_location(f, loop)
+                        for n in ast.walk(f):
+                            if not hasattr(n, "lineno"):
+                                ast.copy_location(n, loop)
+                        ast.fix_missing_locations(f)
+                        new.append(f)
+                    stmts[done:done + 1] = new
+                    for k in reversed(drop):
+                        del stmts[k]
+                    i -= 1
+            i += 1
+    block(func.body)
+    return func
+
+
 def coalesce_copies(func):
     """Copy coalescing at the top level of a function: `A = x` / `A, B = x, y` where the local x is not used afterwards and the name A
     does not occur before, is the same program with x spelled A from the start (the copy statement disappears).  This is what is
